@@ -192,7 +192,10 @@ def handle : Handler := fun op inp impl => do
       let after ← fStr impl "after"
       let conc ← fBool impl "conc_same"
       return { model := .null,
-               holds := [("C19.lua_fresh_state", solo == after), ("C19.lua_concurrent_same", conc)],
+               holds := [("C19.lua_fresh_state", solo == after), ("C19.lua_concurrent_same", conc),
+                         -- the JSON bytes of one script result are not overwritten by the encoding of another
+                         ("C19.encode_result_owned", (jopt impl "owned").bind (fun x => x.getBool?.toOption) |>.getD true),
+                         ("C16.encode_result_owned", (jopt impl "owned").bind (fun x => x.getBool?.toOption) |>.getD true)],
                tags := ["iso", if (← fNat inp "conc") > 0 then "iso:concurrent" else "iso:sequential"] }
   | "run" =>
     let cls ← fStr inp "class"
